@@ -38,25 +38,34 @@ inductive Stmt (V : Type) where
   /-- `break` / `continue` of the innermost enclosing `while` / `loop` -/
   | brk
   | cont
+  /-- the chip's own stack used as memory: `x = stack[a]` (`get x db a`) and `stack[a] = v` (`put db a v`) -/
+  | getm (x : Reg) (a : Opnd Reg V)
+  | putm (a v : Opnd Reg V)
+  /-- call of procedure `k` (`jal` to its entry label); arguments and results travel through stack cells (`putm` / `getm`) -/
+  | call (k : Nat)
+  /-- `return` that is not the last statement of a procedure body: jump to the procedure's end label -/
+  | ret
 
-/-- source-level state: registers (one per variable / temporary) and the effects so far, newest first -/
+/-- source-level state: registers (one per variable / temporary), the stack memory, and the effects so far, newest first -/
 structure SSt (V : Type) where
   regs : Reg → V
+  mem : Nat → V
   trace : List (Eff V)
 
-/-- how a statement ends: normally, by `break`, by `continue` -/
+/-- how a statement ends: normally, by `break`, by `continue`, by `return` -/
 inductive Exit where
-  | norm | brk | cont
+  | norm | brk | cont | ret
   deriving DecidableEq, Repr
 
 inductive Res (V : Type) where
   | ok (e : Exit) (s : SSt V)
   | timeout (s : SSt V)      -- out of fuel: the state reached so far (its trace is a prefix of the behaviour)
+  | stuck                    -- a stack address outside the stack: the reference semantics has no answer (outside the domain)
 
 @[match_pattern] abbrev Res.done {V : Type} (s : SSt V) : Res V := .ok .norm s
 
 section sem
-variable {V : Type} (sem : Sem V) (env : Env V)
+variable {V : Type} (sem : Sem V) (env : Env V) (F : Nat → Stmt V)
 
 def evalArgs (f : Reg → V) (args : List (Opnd Reg V)) : List V := args.map (Opnd.eval f)
 
@@ -68,8 +77,26 @@ def exec : Nat → Stmt V → SSt V → Res V
   | _, .yield, s => .done { s with trace := ⟨"yield", []⟩ :: s.trace }
   | _, .sleep a, s => .done { s with trace := ⟨"sleep", [a.eval s.regs]⟩ :: s.trace }
   | _, .skip, s => .done s
+  | _, .getm x a, s =>
+      match sem.toAddr (a.eval s.regs) with
+      | some n => if n < stackSize then .done { s with regs := upd s.regs x (s.mem n) } else .stuck
+      | none => .stuck
+  | _, .putm a v, s =>
+      match sem.toAddr (a.eval s.regs) with
+      | some n => if n < stackSize then .done { s with mem := updMem s.mem n (v.eval s.regs) } else .stuck
+      | none => .stuck
   | _, .brk, s => .ok .brk s
   | _, .cont, s => .ok .cont s
+  | _, .ret, s => .ok .ret s
+  | 0, .call _, s => .timeout s
+  | n + 1, .call k, s =>
+      -- the body runs on the same registers; it ends normally or by `return`; a `break` / `continue` that would leave it is
+      -- outside the domain
+      match exec n (F k) s with
+      | .ok .norm s' => .done s'
+      | .ok .ret s' => .done s'
+      | .ok _ _ => .stuck
+      | r => r
   | n, .seq p q, s =>
       match exec n p s with
       | .ok .norm s' => exec n q s'
@@ -83,15 +110,17 @@ def exec : Nat → Stmt V → SSt V → Res V
       if sem.cond c (evalArgs s.regs args) then
         match exec (n + 1) body s with
         | .ok .brk s' => .done s'
+        | .ok .ret s' => .ok .ret s'
         | .ok _ s' => exec n (.while c neg args body) s'
-        | .timeout s' => .timeout s'
+        | r => r
       else .done s
   | 0, .loop _, s => .timeout s
   | n + 1, .loop body, s =>
       match exec (n + 1) body s with
       | .ok .brk s' => .done s'
+      | .ok .ret s' => .ok .ret s'
       | .ok _ s' => exec n (.loop body) s'
-      | .timeout s' => .timeout s'
+      | r => r
 
 end sem
 
@@ -110,48 +139,124 @@ def size {V : Type} : Stmt V → Nat
   | .loop body => size body + 3
   | .brk => 1
   | .cont => 1
+  | .getm _ _ => 1
+  | .putm _ _ => 1
+  | .call _ => 1
+  | .ret => 1
 
 def nopI {V : Type} : Instr Reg V := ⟨.nop, none, []⟩
 
 /-- the model code generator; `base` = line number of the first emitted line; `lit n` = the operand that denotes line `n`;
-    `cl` / `bl` = the lines `continue` / `break` jump to (start and end label of the innermost enclosing loop) -/
-def comp {V : Type} (lit : Nat → V) : Stmt V → Nat → Nat → Nat → List (Instr Reg V)
-  | .alu x op args, _, _, _ => [⟨.alu op, some x, args⟩]
-  | .load x q args, _, _, _ => [⟨.load q, some x, args⟩]
-  | .store q args, _, _, _ => [⟨.store q, none, args⟩]
-  | .yield, _, _, _ => [⟨.yield, none, []⟩]
-  | .sleep a, _, _, _ => [⟨.sleep, none, [a]⟩]
-  | .skip, _, _, _ => []
-  | .brk, _, _, bl => [⟨.jmp, none, [.num (lit bl)]⟩]
-  | .cont, _, cl, _ => [⟨.jmp, none, [.num (lit cl)]⟩]
-  | .seq p q, base, cl, bl => comp lit p base cl bl ++ comp lit q (base + size p) cl bl
-  | .ite _ neg args p q, base, cl, bl =>
-      [⟨.br neg, none, args ++ [.num (lit (base + size p + 2))]⟩] ++ comp lit p (base + 1) cl bl ++
-      [⟨.jmp, none, [.num (lit (base + size p + size q + 3))]⟩, nopI] ++ comp lit q (base + size p + 3) cl bl ++ [nopI]
-  | .ifThen _ neg args p, base, cl, bl =>
-      [⟨.br neg, none, args ++ [.num (lit (base + size p + 1))]⟩] ++ comp lit p (base + 1) cl bl ++ [nopI, nopI]
-  | .while _ neg args body, base, _, _ =>
-      [nopI, ⟨.br neg, none, args ++ [.num (lit (base + size body + 3))]⟩] ++ comp lit body (base + 2) base (base + size body + 3) ++
+    `cl` / `bl` = the lines `continue` / `break` jump to (start and end label of the innermost enclosing loop); `rl` = the line
+    `return` jumps to (end label of the procedure); `entry k` = the line of procedure `k`'s entry label -/
+def comp {V : Type} (lit : Nat → V) (entry : Nat → Nat) : Stmt V → Nat → Nat → Nat → Nat → List (Instr Reg V)
+  | .alu x op args, _, _, _, _ => [⟨.alu op, some x, args⟩]
+  | .load x q args, _, _, _, _ => [⟨.load q, some x, args⟩]
+  | .store q args, _, _, _, _ => [⟨.store q, none, args⟩]
+  | .yield, _, _, _, _ => [⟨.yield, none, []⟩]
+  | .sleep a, _, _, _, _ => [⟨.sleep, none, [a]⟩]
+  | .skip, _, _, _, _ => []
+  | .getm x a, _, _, _, _ => [⟨.getdb, some x, [a]⟩]
+  | .putm a v, _, _, _, _ => [⟨.poke, none, [a, v]⟩]
+  | .call k, _, _, _, _ => [⟨.jal, none, [.num (lit (entry k))]⟩]
+  | .ret, _, _, _, rl => [⟨.jmp, none, [.num (lit rl)]⟩]
+  | .brk, _, _, bl, _ => [⟨.jmp, none, [.num (lit bl)]⟩]
+  | .cont, _, cl, _, _ => [⟨.jmp, none, [.num (lit cl)]⟩]
+  | .seq p q, base, cl, bl, rl => comp lit entry p base cl bl rl ++ comp lit entry q (base + size p) cl bl rl
+  | .ite _ neg args p q, base, cl, bl, rl =>
+      [⟨.br neg, none, args ++ [.num (lit (base + size p + 2))]⟩] ++ comp lit entry p (base + 1) cl bl rl ++
+      [⟨.jmp, none, [.num (lit (base + size p + size q + 3))]⟩, nopI] ++ comp lit entry q (base + size p + 3) cl bl rl ++ [nopI]
+  | .ifThen _ neg args p, base, cl, bl, rl =>
+      [⟨.br neg, none, args ++ [.num (lit (base + size p + 1))]⟩] ++ comp lit entry p (base + 1) cl bl rl ++ [nopI, nopI]
+  | .while _ neg args body, base, _, _, rl =>
+      [nopI, ⟨.br neg, none, args ++ [.num (lit (base + size body + 3))]⟩] ++ comp lit entry body (base + 2) base (base + size body + 3) rl ++
       [⟨.jmp, none, [.num (lit base)]⟩, nopI]
-  | .loop body, base, _, _ =>
-      [nopI] ++ comp lit body (base + 1) base (base + size body + 2) ++ [⟨.jmp, none, [.num (lit base)]⟩, nopI]
+  | .loop body, base, _, _, rl =>
+      [nopI] ++ comp lit entry body (base + 1) base (base + size body + 2) rl ++ [⟨.jmp, none, [.num (lit base)]⟩, nopI]
 
-/-- every branch of the program uses a suffix that negates its condition (on as many values as the branch compares) -/
-def NegOk {V : Type} (sem : Sem V) : Stmt V → Prop
-  | .seq p q => NegOk sem p ∧ NegOk sem q
-  | .ite c neg args p q => (∀ vals : List V, vals.length = args.length → sem.cond neg vals = !sem.cond c vals) ∧ NegOk sem p ∧ NegOk sem q
-  | .ifThen c neg args p => (∀ vals : List V, vals.length = args.length → sem.cond neg vals = !sem.cond c vals) ∧ NegOk sem p
-  | .while c neg args body => (∀ vals : List V, vals.length = args.length → sem.cond neg vals = !sem.cond c vals) ∧ NegOk sem body
-  | .loop body => NegOk sem body
+/-- the block of procedure `k` placed at its entry line: `f: ; body ; fend: ; j ra` -/
+def compProc {V : Type} (lit : Nat → V) (entry : Nat → Nat) (body : Stmt V) (k : Nat) : List (Instr Reg V) :=
+  [nopI] ++ comp lit entry body (entry k + 1) 0 0 (entry k + 1 + size body) ++ [nopI, ⟨.jmp, none, [.reg Special.ra]⟩]
+
+/-! ### program layout: main code, then one block per procedure -/
+
+def blockSize {V : Type} (b : Stmt V) : Nat := size b + 3
+
+/-- line of procedure `k`'s entry label -/
+def entryOf {V : Type} (mainSize : Nat) (procs : List (Stmt V)) (k : Nat) : Nat := mainSize + ((procs.take k).map blockSize).sum
+
+def procOf {V : Type} (procs : List (Stmt V)) (k : Nat) : Stmt V := procs.getD k .skip
+
+def blocks {V : Type} (lit : Nat → V) (entry : Nat → Nat) (procs : List (Stmt V)) : List (List (Instr Reg V)) :=
+  procs.zipIdx.map (fun (b, k) => compProc lit entry b k)
+
+/-- **the model of the whole emitted program**: the main script, then `f: ; body ; fend: ; j ra` for every procedure -/
+def compProg {V : Type} (lit : Nat → V) (main : Stmt V) (procs : List (Stmt V)) : List (Instr Reg V) :=
+  comp lit (entryOf (size main) procs) main 0 0 0 0 ++ (blocks lit (entryOf (size main) procs) procs).flatten
+
+/-- a statement without calls (what a leaf procedure consists of) -/
+def NoCall {V : Type} : Stmt V → Prop
+  | .call _ => False
+  | .seq p q => NoCall p ∧ NoCall q
+  | .ite _ _ _ p q => NoCall p ∧ NoCall q
+  | .ifThen _ _ _ p => NoCall p
+  | .while _ _ _ body => NoCall body
+  | .loop body => NoCall body
   | _ => True
 
-/-- executable form of `NegOk` against a table of (condition, branch suffix, number of compared operands) -/
-def pairsOk {V : Type} (pairs : List (String × String × Nat)) : Stmt V → Bool
-  | .seq p q => pairsOk pairs p && pairsOk pairs q
-  | .ite c neg args p q => pairs.contains (c, neg, args.length) && pairsOk pairs p && pairsOk pairs q
-  | .ifThen c neg args p => pairs.contains (c, neg, args.length) && pairsOk pairs p
-  | .while c neg args body => pairs.contains (c, neg, args.length) && pairsOk pairs body
-  | .loop body => pairsOk pairs body
+def opndOk {V : Type} : Opnd Reg V → Prop
+  | .reg r => r ≠ (Special.ra : Reg)
+  | .num _ => True
+
+/-- well-formedness of a core program: every branch uses a suffix that negates its condition (on as many values as it
+    compares), `ra` (register 17) is neither read nor written by the program's own instructions, and every called procedure
+    satisfies `ok` -/
+def Good {V : Type} (sem : Sem V) (ok : Nat → Prop) : Stmt V → Prop
+  | .alu x _ args => x ≠ (Special.ra : Reg) ∧ ∀ o ∈ args, opndOk o
+  | .load x _ args => x ≠ (Special.ra : Reg) ∧ ∀ o ∈ args, opndOk o
+  | .store _ args => ∀ o ∈ args, opndOk o
+  | .sleep a => opndOk a
+  | .getm x a => x ≠ (Special.ra : Reg) ∧ opndOk a
+  | .putm a v => opndOk a ∧ opndOk v
+  | .call k => ok k
+  | .seq p q => Good sem ok p ∧ Good sem ok q
+  | .ite c neg args p q =>
+      (∀ vals : List V, vals.length = args.length → sem.cond neg vals = !sem.cond c vals) ∧ (∀ o ∈ args, opndOk o) ∧ Good sem ok p ∧ Good sem ok q
+  | .ifThen c neg args p =>
+      (∀ vals : List V, vals.length = args.length → sem.cond neg vals = !sem.cond c vals) ∧ (∀ o ∈ args, opndOk o) ∧ Good sem ok p
+  | .while c neg args body =>
+      (∀ vals : List V, vals.length = args.length → sem.cond neg vals = !sem.cond c vals) ∧ (∀ o ∈ args, opndOk o) ∧ Good sem ok body
+  | .loop body => Good sem ok body
+  | _ => True
+
+def opndOkB {V : Type} : Opnd Reg V → Bool
+  | .reg r => r != (Special.ra : Reg)
+  | .num _ => true
+
+/-- executable form of `Good` against a table of (condition, branch suffix, number of compared operands) and the list of
+    procedures that may be called -/
+def goodB {V : Type} (pairs : List (String × String × Nat)) (procs : List Nat) : Stmt V → Bool
+  | .alu x _ args => x != (Special.ra : Reg) && args.all opndOkB
+  | .load x _ args => x != (Special.ra : Reg) && args.all opndOkB
+  | .store _ args => args.all opndOkB
+  | .sleep a => opndOkB a
+  | .getm x a => x != (Special.ra : Reg) && opndOkB a
+  | .putm a v => opndOkB a && opndOkB v
+  | .call k => procs.contains k
+  | .seq p q => goodB pairs procs p && goodB pairs procs q
+  | .ite c neg args p q => pairs.contains (c, neg, args.length) && args.all opndOkB && goodB pairs procs p && goodB pairs procs q
+  | .ifThen c neg args p => pairs.contains (c, neg, args.length) && args.all opndOkB && goodB pairs procs p
+  | .while c neg args body => pairs.contains (c, neg, args.length) && args.all opndOkB && goodB pairs procs body
+  | .loop body => goodB pairs procs body
+  | _ => true
+
+def noCallB {V : Type} : Stmt V → Bool
+  | .call _ => false
+  | .seq p q => noCallB p && noCallB q
+  | .ite _ _ _ p q => noCallB p && noCallB q
+  | .ifThen _ _ _ p => noCallB p
+  | .while _ _ _ body => noCallB body
+  | .loop body => noCallB body
   | _ => true
 
 end PV.Core
